@@ -220,6 +220,9 @@ class SockTranslator:
         self.fields = []          # [(field, type, comment)]
         self.ntmp = 0
         self.sock_alias = None
+        self.list_attrs = {a for a, t in self.state.items() if t == ('List', 'Bytes')}     # mutable list attributes (sbuf)
+        self.list_alias = {}      # local name -> list attribute it is the one alias of (`sbuf = self.sbuf`)
+        self._drop_ne = False
         self.loop_depth = 0
         self.handler_exc = []     # stack of lean names of the exception a handler caught
         self.uses_fuel = False
@@ -313,8 +316,26 @@ class SockTranslator:
             t = want
         return text, t
 
+    def list_place(self, node):
+        """the list attribute `node` denotes: `self.<attr>` or the method's alias of it (else None)"""
+        if isinstance(node, ast.Name) and node.id in self.list_alias:
+            return self.list_alias[node.id]
+        if isinstance(node, ast.Attribute) and isinstance(node.value, ast.Name) and node.value.id == 'self' \
+                and node.attr in self.list_attrs:
+            return node.attr
+        return None
+
+    def _mark(self, node):
+        """`node` is used in a position that keeps no reference to a mutable list (len, join, truth, index, …)"""
+        if (isinstance(node, ast.Name) and node.id in self.fresh) or self.list_place(node):
+            node._fresh_ok = True
+
     def _read_var(self, node, fl):
         name = node.id
+        if name in self.list_alias:
+            if not getattr(node, '_fresh_ok', False):
+                raise Unsupported(node, 'list attribute alias %s used where it could be aliased again' % name)
+            return 's.self.%s' % lean_field(self.list_alias[name]), ('List', 'Bytes')
         if name in self.vars:
             if name not in fl.assigned:
                 raise Unsupported(node, 'local %s may be unbound here' % name)
@@ -346,6 +367,8 @@ class SockTranslator:
             raise Unsupported(node, 'constant %r' % (v,))
         if isinstance(node, ast.Attribute):
             if isinstance(node.value, ast.Name) and node.value.id == 'self' and node.attr in self.state:
+                if node.attr in self.list_attrs and not getattr(node, '_fresh_ok', False):
+                    raise Unsupported(node, 'mutable list attribute %s used where it could be aliased' % node.attr)
                 return 's.self.%s' % lean_field(node.attr), self.state[node.attr]
             raise Unsupported(node, 'attribute %s' % (dotted(node) or node.attr))
         if isinstance(node, ast.UnaryOp):
@@ -386,6 +409,21 @@ class SockTranslator:
                 elif not (isinstance(v, ast.Constant) and type(v.value) is str):
                     raise Unsupported(v, 'f-string part')
             return '()', 'Msg'
+        if isinstance(node, ast.List) and node.elts:      # a new list of byte strings
+            if any(isinstance(e, ast.Starred) for e in node.elts):
+                raise Unsupported(node, 'starred list display')
+            return '([%s] : List %s.Bytes)' % (', '.join(self.expr(e, fl, 'Bytes')[0] for e in node.elts), RT), ('List', 'Bytes')
+        if isinstance(node, ast.ListComp):                # [x for x in L if x] : a new list, the non-empty members of L
+            g = node.generators
+            if len(g) != 1 or g[0].is_async or not isinstance(g[0].target, ast.Name) or len(g[0].ifs) != 1 \
+                    or not (isinstance(node.elt, ast.Name) and node.elt.id == g[0].target.id) \
+                    or not (isinstance(g[0].ifs[0], ast.Name) and g[0].ifs[0].id == g[0].target.id):
+                raise Unsupported(node, 'list comprehension other than [x for x in L if x]')
+            self._mark(g[0].iter)
+            x, t = self._expr(g[0].iter, fl)
+            if t != ('List', 'Bytes'):
+                raise Unsupported(node, 'comprehension over %s' % (t,))
+            return '(List.filter %s.truthy %s)' % (RT, x), ('List', 'Bytes')
         if isinstance(node, ast.Tuple):      # only as the argument tuple of a `%` message
             for e in node.elts:
                 self._msg_arg(e, fl)
@@ -455,6 +493,13 @@ class SockTranslator:
         return self.expr(node, fl, 'Int')[0]
 
     def _subscript(self, node, fl):
+        attr = self.list_place(node.value)
+        if attr is not None:                     # L[0] where the flow facts show L is not empty (else IndexError)
+            if not (isinstance(node.slice, ast.Constant) and type(node.slice.value) is int and node.slice.value == 0):
+                raise Unsupported(node, 'subscript of a list attribute other than [0]')
+            if '#' + attr not in fl.nonnull:
+                raise Unsupported(node, '%s[0] where the list may be empty' % attr)
+            return '(List.headD s.self.%s [])' % lean_field(attr), 'Bytes'
         if isinstance(node.value, ast.Name) and node.value.id in self.fresh:
             node.value._fresh_ok = True          # a slice of a bytearray is a new object
         base, t = self._expr(node.value, fl)
@@ -475,8 +520,7 @@ class SockTranslator:
         fn = node.func
         if isinstance(fn, ast.Name) and fn.id == 'len' and len(node.args) == 1:
             a = node.args[0]
-            if isinstance(a, ast.Name) and a.id in self.fresh:
-                a._fresh_ok = True
+            self._mark(a)
             x, t = self._expr(a, fl)
             if t == 'Bytes':
                 return '(%s.len %s)' % (RT, x), 'Int'
@@ -498,8 +542,7 @@ class SockTranslator:
         if isinstance(fn, ast.Attribute) and fn.attr == 'join' and isinstance(fn.value, ast.Constant) \
                 and fn.value.value == b'' and len(node.args) == 1:
             a = node.args[0]
-            if isinstance(a, ast.Name) and a.id in self.fresh:
-                a._fresh_ok = True
+            self._mark(a)
             x, t = self._expr(a, fl)
             if t != ('List', 'Bytes'):
                 raise Unsupported(node, "b''.join of %s" % (t,))
@@ -585,6 +628,7 @@ class SockTranslator:
                 args.append(self.expr(a, fl, parse_type(t))[0])
             return '(fun s => net.%s%s)' % (field, ''.join(' ' + a for a in args)), parse_type(rt), False
         sp = info
+        self._drop_ne = True
         pnames = list(sp['params'])
         given = {}
         if len(node.args) > len(pnames):
@@ -628,14 +672,34 @@ class SockTranslator:
             if k == 0 and isinstance(st, ast.Expr) and isinstance(st.value, ast.Constant) and type(st.value.value) is str:
                 continue
             text, fl = self.stmt(st, fl)
+            if self._drop_ne:
+                self._drop_ne = False
+                if fl is not None:
+                    fl = Flow(fl.assigned, {x for x in fl.nonnull if not x.startswith('#')})
             items.append(text)
         return self.seq(items), fl
+
+    def _kills(self, stmts):
+        """non-emptiness facts ('#attr') a statement list may invalidate: a slice assignment of a possibly empty list, a
+        call of a method of the object"""
+        out = set()
+        for x in stmts:
+            for n in ast.walk(x):
+                if isinstance(n, ast.Assign):
+                    for t in n.targets:
+                        if isinstance(t, ast.Subscript) and self.list_place(t.value) is not None and isinstance(t.slice, ast.Slice) \
+                                and not (isinstance(n.value, ast.List) and n.value.elts):
+                            out.add('#' + self.list_place(t.value))
+                if isinstance(n, ast.Call) and (dotted(n.func) or '').startswith('self.') and (dotted(n.func) or '').count('.') == 1:
+                    out |= {'#' + a for a in self.list_attrs}
+        return out
 
     def target(self, t, vt, fl, node):
         """an assignment target receiving a value of type `vt`: -> (update builder, flow change)"""
         if isinstance(t, ast.Name):
             name = t.id
-            if name == 'self' or name in self.consts or name == self.sentinel or name == self.sock_alias:
+            if name == 'self' or name in self.consts or name == self.sentinel or name == self.sock_alias \
+                    or name in self.list_alias:
                 raise Unsupported(t, 'assignment to %s' % name)
             if name not in self.vars:
                 if vt == 'NoneLit':
@@ -646,6 +710,8 @@ class SockTranslator:
             f, ft = self.vars[name]
             return ('loc', f, ft, name)
         if isinstance(t, ast.Attribute) and isinstance(t.value, ast.Name) and t.value.id == 'self' and t.attr in self.state:
+            if t.attr in self.list_attrs:
+                raise Unsupported(t, 'mutable list attribute %s rebound' % t.attr)
             return ('self', lean_field(t.attr), self.state[t.attr], None)
         raise Unsupported(t, 'assignment target')
 
@@ -670,6 +736,38 @@ class SockTranslator:
                 raise Unsupported(st, 'alias of the socket bound more than once / inside a loop')
             self.sock_alias = tg.id
             return 'Blk.skip', fl
+        # sbuf = self.sbuf : THE alias of a mutable list attribute (the attribute is never rebound, see `target`)
+        if isinstance(tg, ast.Name) and self.list_place(val) is not None and isinstance(val, ast.Attribute):
+            if tg.id in self.list_alias or tg.id in self.vars or self.loop_depth or self.in_branch \
+                    or self._stores(tg.id) != 1 or tg.id in self.spec['params'] or tg.id == 'self':
+                raise Unsupported(st, 'alias of a list attribute bound more than once / inside a loop or branch')
+            if any(isinstance(n, ast.Call) and (dotted(n.func) or '').startswith('self.') and (dotted(n.func) or '').count('.') == 1
+                   for n in ast.walk(self.f)):
+                raise Unsupported(st, 'alias of a list attribute in a method that calls methods of the object')
+            self.list_alias[tg.id] = val.attr
+            return 'Blk.skip', fl
+        # L[:] = <new list>     L[0] = <bytes>      (L a list attribute / its alias): in-place updates of the one list object
+        if isinstance(tg, ast.Subscript) and self.list_place(tg.value) is not None:
+            attr = self.list_place(tg.value)
+            f = lean_field(attr)
+            if self.has_effect(val):
+                raise Unsupported(st, 'list item / slice assignment of a call with an effect')
+            sl = tg.slice
+            if isinstance(sl, ast.Slice) and sl.lower is None and sl.upper is None and sl.step is None:
+                if not isinstance(val, (ast.List, ast.ListComp)):
+                    raise Unsupported(st, 'slice assignment of something else than a new list')
+                v, vt = self._expr(val, fl) if not (isinstance(val, ast.List) and not val.elts) else ('([] : List %s.Bytes)' % RT, ('List', 'Bytes'))
+                if vt != ('List', 'Bytes'):
+                    raise Unsupported(st, 'slice assignment of %s' % (vt,))
+                ne = isinstance(val, ast.List) and len(val.elts) > 0
+                fl2 = Flow(fl.assigned, (fl.nonnull - {'#' + attr}) | ({'#' + attr} if ne else set()))
+                return 'Blk.assign %s' % self.updates([('self', f, v)]), fl2
+            if isinstance(sl, ast.Constant) and type(sl.value) is int and sl.value == 0:
+                if '#' + attr not in fl.nonnull:
+                    raise Unsupported(st, '%s[0] = … where the list may be empty' % attr)
+                v, _ = self.expr(val, fl, 'Bytes')
+                return 'Blk.assign %s' % self.updates([('self', f, '(List.set s.self.%s 0 %s)' % (f, v))]), fl
+            raise Unsupported(st, 'list item / slice assignment')
         # x = A or <effect>
         if isinstance(val, ast.BoolOp) and isinstance(val.op, ast.Or) and len(val.values) == 2 \
                 and not self.has_effect(val.values[0]) and self.effect_of(val.values[1]) and isinstance(tg, ast.Name):
@@ -776,6 +874,13 @@ class SockTranslator:
             if self.effect_of(v):
                 op, rt, is_m = self.call_text(v, fl)
                 return 'Blk.%s %s (fun s _ => s)' % ('callm' if is_m else 'call', op), fl
+            if isinstance(v, ast.Call) and isinstance(v.func, ast.Attribute) and self.list_place(v.func.value) is not None:
+                attr = self.list_place(v.func.value)
+                f = lean_field(attr)
+                if v.func.attr != 'append' or len(v.args) != 1 or v.keywords or self.has_effect(v.args[0]):
+                    raise Unsupported(st, 'method of a list attribute other than append(<pure bytes>)')
+                a, _ = self.expr(v.args[0], fl, 'Bytes')
+                return 'Blk.assign %s' % self.updates([('self', f, '(s.self.%s ++ [%s])' % (f, a))]), fl.add(nonnull=['#' + attr])
             if isinstance(v, ast.Call) and isinstance(v.func, ast.Attribute) and isinstance(v.func.value, ast.Name) \
                     and v.func.value.id in self.fresh and len(v.args) == 1 and not v.keywords \
                     and v.func.value.id in fl.assigned:
@@ -794,6 +899,14 @@ class SockTranslator:
                 if self.rtype != 'None':
                     raise Unsupported(st, 'bare return in a method with a result')
                 return 'Blk.ret (fun _ => ())', None
+            eff = self.effect_of(st.value)
+            if eff and eff[0] == 'method':            # return self.m(args): the call, then the return of its value
+                op, rt, _m = self.call_text(st.value, fl)
+                if rt != self.rtype:
+                    raise Unsupported(st, 'return of a method result of type %s' % (rt,))
+                tmp = self._tmp(rt)
+                return self.seq(['Blk.callm %s (fun s v => { s with loc := { s.loc with %s := v } })' % (op, tmp),
+                                 'Blk.ret (fun s => s.loc.%s)' % tmp]), None
             if self.has_effect(st.value):
                 raise Unsupported(st, 'return of a call with an effect')
             v, _ = self.expr(st.value, fl, self.rtype)
@@ -879,6 +992,7 @@ class SockTranslator:
         # the facts at the loop head are those before the loop (a fixed point: the body can only add to `assigned`;
         # narrowing facts are dropped for everything the body assigns)
         written = {n.id for x in st.body for n in ast.walk(x) if isinstance(n, ast.Name) and isinstance(n.ctx, ast.Store)}
+        written |= self._kills(st.body)
         head = Flow(fl.assigned, fl.nonnull - written)
         nfields = len(self.fields)
         body, fb = self.block(st.body, head.add(nonnull=self.narrow(st.test) - written))
@@ -911,6 +1025,7 @@ class SockTranslator:
         body, fb = self.block(st.body, fl)
         # a handler starts from the facts BEFORE the try (the body may have raised anywhere)
         written = {n.id for x in st.body for n in ast.walk(x) if isinstance(n, ast.Name) and isinstance(n.ctx, ast.Store)}
+        written |= self._kills(st.body)
         hfl = Flow(fl.assigned, fl.nonnull - written)
         self.nexc += 1
         ev = 'e%d' % self.nexc
